@@ -567,6 +567,32 @@ def r173(eng, rep, gens, reach) -> None:
             return ("shallow", set(sa))
         return ("shallow", sa & sb)
 
+    def empty_container(v: ast.AST) -> bool:
+        if isinstance(v, (ast.Dict, ast.List, ast.Set)) and not (getattr(v, "keys", None) or getattr(v, "elts", None)):
+            return True
+        if isinstance(v, ast.Constant) and v.value is None:
+            return True
+        return isinstance(v, ast.Call) and (dotted(v.func) or "").split(".")[-1] in ("dict", "list", "set", "defaultdict", "OrderedDict") and not any(not (isinstance(a, ast.Name) and a.id in ("list", "dict", "set", "int")) for a in v.args)
+
+    def built_here(f: FuncInfo, x: ast.AST) -> bool:
+        """x is a container that starts empty and is filled by this function / this object only: a local bound only to empty
+        literals, or an attribute of a non-schema `self` that every method of the class binds only to empty literals"""
+        if isinstance(x, ast.Name):
+            if x.id in [p.arg for p in f.params]:
+                return False
+            vs = [v for k, v, st in Defs(f.node).values(x.id)]
+            return bool(vs) and all(v is not None and empty_container(v) for v in vs)
+        if isinstance(x, ast.Attribute) and isinstance(x.value, ast.Name) and x.value.id == "self" and f.cls is not None and not f.cls.qual.startswith(SPEC_PREFIX):
+            vals = []
+            for m in f.cls.methods.values():
+                for n in walk_local(m.node):
+                    if isinstance(n, ast.Assign) and any(norm(t) == norm(x) for t in n.targets):
+                        vals.append(n.value)
+                    elif isinstance(n, ast.AnnAssign) and n.value is not None and norm(n.target) == norm(x):
+                        vals.append(n.value)
+            return bool(vals) and all(empty_container(v) for v in vals)
+        return False
+
     def fresh_expr(f: FuncInfo, e: ast.AST, depth=0):
         """Freshness of the object denoted by e (created within this generation?)."""
         if depth > 8:
@@ -593,6 +619,9 @@ def r173(eng, rep, gens, reach) -> None:
                     if fresh_expr(f, a_, depth + 1) is None:
                         alldeep = False
                 return ("deep", set()) if alldeep else ("shallow", set())
+            # element of a container that this function built itself from empty (`d = {}` ... `d.setdefault(k, [])`): a fresh object
+            if isinstance(e.func, ast.Attribute) and e.func.attr in ("setdefault", "get") and built_here(f, e.func.value) and (len(e.args) < 2 or isinstance(e.args[1], (ast.List, ast.Dict, ast.Set)) or (isinstance(e.args[1], ast.Call) and dotted(e.args[1].func) in ("list", "dict", "set") and not e.args[1].args)):
+                return ("shallow", set())
             cs = cg.site_of.get(id(e))
             if cs and cs.callees:
                 lv = ("deep", set())
@@ -716,6 +745,8 @@ def r173(eng, rep, gens, reach) -> None:
             lv = fresh_expr(f, obj)
             if lv is None and isinstance(obj, ast.Attribute) and isinstance(obj.value, ast.Name) and obj.value.id == "self" and f.name in ("__init__", "__post_init__"):
                 lv = ("shallow", set())
+            if lv is None and built_here(f, obj):
+                lv = ("shallow", set())  # an index / memo that the function or the (non-schema) object built from empty
             ok = lv is not None
             rep.check(ok, "R17.3", f.file, f.qual, norm(st, 70), "mutates an object created during this generation",
                       "a schema object reachable from the caller's `fcp` is mutated during generation: generating twice (or another generator afterwards) sees a changed schema")
